@@ -60,6 +60,9 @@ pub struct GenOpts {
     pub huge_iter_oneshot_pct: u64,
     /// chance (percent) that the closure passed to for_each / fold panics at its k-th call
     pub closure_panic_pct: u64,
+    /// chance (percent) that a thread executes the tail of its list from a destructor while it
+    /// unwinds from a panic of its own
+    pub in_unwind_pct: u64,
 }
 
 impl GenOpts {
@@ -101,6 +104,7 @@ impl GenOpts {
             wrapper_nth_pct: 0,
             huge_iter_oneshot_pct: 0,
             closure_panic_pct: 0,
+            in_unwind_pct: 0,
         }
     }
 }
@@ -137,6 +141,7 @@ pub fn opts_for(prop: &str) -> GenOpts {
     let mut o = GenOpts::base();
     match prop {
         "C01" => {
+            o.in_unwind_pct = 5;
             // operation classes that do not concern this property directly, at a low weight:
             // what they do to the shared state must not disturb what the property states
             o.w_query = 4;
@@ -200,6 +205,7 @@ pub fn opts_for(prop: &str) -> GenOpts {
             o.huge_pct = 6;
         }
         "C05" => {
+            o.in_unwind_pct = 5;
             // operation classes that do not concern this property directly, at a low weight:
             // what they do to the shared state must not disturb what the property states
             o.w_composite = 6;
@@ -237,6 +243,7 @@ pub fn opts_for(prop: &str) -> GenOpts {
             o.stale_pct = 25;
         }
         "C08" => {
+            o.in_unwind_pct = 5;
             // operation classes that do not concern this property directly, at a low weight:
             // what they do to the shared state must not disturb what the property states
             o.w_query = 4;
@@ -301,6 +308,7 @@ pub fn opts_for(prop: &str) -> GenOpts {
             o.kinds = kinds;
         }
         "C12" => {
+            o.in_unwind_pct = 5;
             // operation classes that do not concern this property directly, at a low weight:
             // what they do to the shared state must not disturb what the property states
             o.w_query = 4;
@@ -359,6 +367,7 @@ pub fn opts_for(prop: &str) -> GenOpts {
             o.multi_iter = true;
         }
         "C15" => {
+            o.in_unwind_pct = 5;
             // operation classes that do not concern this property directly, at a low weight:
             // what they do to the shared state must not disturb what the property states
             o.w_query = 4;
@@ -737,6 +746,13 @@ pub fn generate_with(prop: &str, o: &GenOpts, base_seed: u64, index: u64) -> Run
             let extra = rng.range(0, o.extra_max as usize) as u32;
             ops.push(Op::Drain(method(&mut rng, len), extra));
         }
+        if o.in_unwind_pct > 0 && !ops.is_empty() && rng.chance(o.in_unwind_pct, 100) {
+            // "finish the work on drop" guards: pulls issued while the thread is unwinding
+            let at = rng.below(ops.len());
+            if !ops[..at].contains(&Op::Stop) {
+                ops.insert(at, Op::InUnwind);
+            }
+        }
         if kind.is_nested() {
             // elements leave the base iterator behind the outer iterator's back
             let k = rng.range(0, 3);
@@ -896,6 +912,12 @@ pub fn generate_with(prop: &str, o: &GenOpts, base_seed: u64, index: u64) -> Run
             // ... or fewer than announced (somebody else drained the queue)
             // (far more than the pulls past the end can make up for, in most cases)
             cfg.hint_long = *rng.pick(&[1usize, 2, 40, 100, 1000]);
+        }
+    }
+    if cfg.panic.is_some() {
+        // one panic at a time: a second one inside the unwinding context would abort the process
+        for t in cfg.threads.iter_mut() {
+            t.retain(|op| *op != Op::InUnwind);
         }
     }
     if matches!(cfg.panic, Some((PanicSite::ElemDrop, _))) {
